@@ -261,13 +261,16 @@ func (mc *MemoryChannel) appendRdb(writer *MemoryRdbWriter, buf []byte) (int, er
 }
 
 func (mc *MemoryChannel) finishRdb(writer *MemoryRdbWriter, err error) {
-	seg := writer.currentSegment()
-	if seg != nil {
-		seg.close(err)
-	}
-
+	// under the lock, as finishAof: the writer may be closed from outside while its own goroutine is in
+	// appendRdb, which could still rotate to a new segment that nobody would close any more (a reader of
+	// the snapshot would wait at its end for ever)
 	mc.mux.Lock()
 	defer mc.mux.Unlock()
+	seg := writer.currentSegment()
+	if seg != nil {
+		seg.blob.close(err)
+		mc.signalSpaceLocked()
+	}
 	if mc.rdbWriter == writer {
 		mc.rdbWriter = nil
 	}
